@@ -17,11 +17,15 @@ STUB_ATTR["S4"] = "#[kani::stub(core::fmt::Formatter::pad, crate::stubs::fmt_pad
 STUB_ATTR["S5"] = "#[kani::stub(std::string::String::push, crate::stubs::string_push_ascii)]"
 STUB_ATTR["S6"] = "#[kani::stub(std::collections::VecDeque::grow, crate::stubs::vecdeque_grow)]"
 STUB_ATTR["S7"] = "#[kani::stub(smallvec::SmallVec::reserve_one_unchecked, crate::stubs::smallvec_reserve_one)]"
+STUB_ATTR["S8"] = "#[kani::stub(<usize as core::fmt::Display>::fmt, crate::stubs::fmt_usize)]"
+STUB_ATTR["S4b"] = "#[kani::stub(core::fmt::Formatter::pad, crate::stubs::fmt_pad_split)]"
 STUB_ATTR["S3a"] = "#[kani::stub(std_detect::detect::arch::x86::__is_feature_detected::avx2, crate::ascii_ops::avx2_no)]"
 STUB_ATTR["S3b"] = ("#[kani::stub(std_detect::detect::arch::x86::__is_feature_detected::avx2, crate::ascii_ops::avx2_yes)]\n"
                     "#[kani::stub(debruijn::bitops_avx2::convert_bases, crate::ascii_ops::kernel_spec::convert_bases)]\n"
                     "#[kani::stub(debruijn::bitops_avx2::pack_32_bases, crate::ascii_ops::kernel_spec::pack_32_bases)]")
 STUB_TEXT = {
+    "S4b": "core::fmt::Formatter::pad(s) replaced by a byte-by-byte write of concrete one-byte literals chosen by a case split over ACGT+-LR (length <= 8 and membership asserted inside the stub; exact for `{}` without width/precision)",
+    "S8": "<usize as Display>::fmt replaced by a one-digit renderer (a concrete literal per case) with `value < 8` asserted inside the stub (exact for `{}` without flags/width whenever the harness verifies; the real one divides a symbolic 64-bit value in a loop)",
     "S7": "SmallVec::reserve_one_unchecked (heap spill) replaced by an asserted-unreachable stub (edge lists hold <= 4 entries = the inline capacity)",
     "S6": "VecDeque::grow replaced by an asserted-unreachable stub (the scratch deque handed to the hook is pre-reserved beyond every reachable length; capacity is unobservable)",
     "S5": "String::push(c) replaced by a one-byte push with `c` is ASCII asserted inside the stub (exact whenever the harness verifies)",
@@ -35,7 +39,7 @@ STUB_TEXT = {
 
 class H:
     def __init__(self, name, props, call, unwind=None, tier="quick", cap=180, mem=3,
-                 stubs=(), funcs=(), bounds="", group=""):
+                 stubs=(), funcs=(), bounds="", group="", cbmc_args="", ofmt="terse"):
         self.name = name
         self.props = list(props)
         self.call = call
@@ -47,6 +51,8 @@ class H:
         self.funcs = list(funcs)
         self.bounds = bounds
         self.group = group or name.split("__")[0]
+        self.ofmt = ofmt  # kani --output-format: "terse" (Kani's parsed results) or "old" (CBMC's plain list; no JSON traces, much lighter)
+        self.cbmc_args = cbmc_args  # extra CBMC flags (per-loop unwinding bounds), passed after --cbmc-args
 
     def rust(self):
         out = ["#[kani::proof]"]
@@ -518,6 +524,22 @@ def step_harnesses():
                         funcs=["CompressFromGraph::try_extend_node", "DebruijnGraph::find_link", "Node::sequence", "Vmer::term_kmer",
                                "ScmapCompress::join_test" if je else "SimpleCompress::join_test"],
                         bounds="%d-node graph, lengths %s over %s: all bases, extension sets, payloads, availability subsets, stranded/unstranded, both directions, every start node; %s; the examined extension resolves to a node with >=1 facing extension (documented panics otherwise)" % (nn, lens, tag, GV)))
+        for je in (False, True):
+            uw = L + 4
+            hs.append(H("c09_node_walk__%s__l%s_%s" % (tag, ls, "eq" if je else "any"), ["C09"],
+                        "crate::step_ops::node_walk::<%s, %d, %d, %s>(%s)" % (ty, nn, L, "true" if je else "false", arr),
+                        unwind=uw, cap=1800, mem=20, stubs=["S1", "S2"], ofmt="old",
+                        tier="quick" if (q and not je and tag == "kmer3") else "thorough",
+                        funcs=["CompressFromGraph::extend_node", "CompressFromGraph::try_extend_node", "DebruijnGraph::find_link", "BitSet::remove"],
+                        bounds="%d-node graph, lengths %s over %s: all bases, extension sets, payloads, availability subsets, stranded/unstranded, both directions, every start node; %s; every examined extension resolves to a node with >=1 facing extension" % (nn, lens, tag, GV)))
+            hs.append(H("c09_build_node__%s__l%s_%s" % (tag, ls, "eq" if je else "any"), ["C09"],
+                        "crate::step_ops::graph_build_node::<%s, %d, %d, %s>(%s)" % (ty, nn, L, "true" if je else "false", arr),
+                        unwind=uw, cap=1800, mem=20, stubs=["S1", "S2"], ofmt="old",
+                        tier="quick" if (q and not je and tag == "kmer3") else "thorough",
+                        funcs=["CompressFromGraph::build_node", "CompressFromGraph::extend_node", "CompressFromGraph::try_extend_node",
+                               "DebruijnGraph::sequence_of_path", "Exts::from_single_dirs", "Exts::complement",
+                               "ScmapCompress::reduce" if je else "SimpleCompress::reduce"],
+                        bounds="%d-node graph, lengths %s over %s: all bases, extension sets, payloads, availability subsets containing the seed, stranded/unstranded, every seed node; %s; every examined extension resolves to a node with >=1 facing extension" % (nn, lens, tag, GV)))
     for tag, lens, (a, b) in (("kmer3", (3, 4), (0, 1)), ("kmer3", (3, 4), (1, 0)), ("kmer3", (4, 4), (0, 0)), ("kmer4", (4, 5), (0, 1)), ("kmer4", (5, 4), (1, 1))):
         ty, k = KT_BY_TAG[tag][1], KT_BY_TAG[tag][2]
         hs.append(H("c09_sequence_of_path__%s__l%d_%d__p%d%d" % (tag, lens[0], lens[1], a, b), ["C09", "C03"],
@@ -565,6 +587,14 @@ def walk_harnesses():
     return hs
 
 
+# core::fmt::write's loop over the (constant) format template needs ~11 iterations for the widest
+# line; giving only that loop its own bound keeps the global bound — which every data-dependent
+# loop of the code under test is unwound to — at 7. If the loop id ever changes (other toolchain)
+# CBMC ignores the entry, the global bound applies and the unwinding assertion reports it
+# (inconclusive, never a false pass).
+FMT_WRITE_UNWINDSET = "--unwindset _RNvNtCs8xvirJzNMvV_4core3fmt5write.0:12"
+
+
 def export_harnesses():
     """C20: GFA / JSON export link structure on small graphs."""
     hs = []
@@ -576,19 +606,18 @@ def export_harnesses():
         ls = "_".join(str(x) for x in lens)
         arr = "[%s]" % ", ".join(str(x) for x in lens)
         hs.append(H("c20_gfa__%s__l%s" % (tag, ls), ["C20"],
-                    "crate::export_ops::gfa::<%s, %d, %d>(%s)" % (ty, len(lens), k + 1, arr), unwind=8, cap=1800, mem=20,
-                    stubs=["S1", "S2", "S4", "S5", "S7"], tier="quick" if q else "thorough",
+                    "crate::export_ops::gfa::<%s, %d, %d>(%s)" % (ty, len(lens), k + 1, arr), unwind=7, cap=1800, mem=10 if len(lens) == 1 else 14, cbmc_args=FMT_WRITE_UNWINDSET, ofmt="old",
+                    stubs=["S1", "S2", "S4b", "S5", "S7", "S8"], tier="quick" if q else "thorough",
                     funcs=["DebruijnGraph::write_gfa", "DebruijnGraph::node_to_gfa", "Node::l_edges", "Node::r_edges", "DebruijnGraph::find_edges",
                            "DebruijnGraph::find_link", "DnaStringSlice::to_dna_string", "core::fmt::write"],
                     bounds="%d-node graph with node lengths %s over %s: all bases, all 256 extension sets per node, stranded/unstranded; fixed-array sink; %s" % (len(lens), lens, tag, GV)))
         if len(lens) == 2 or q:
             hs.append(H("c20_json__%s__l%s" % (tag, ls), ["C20"],
-                        "crate::export_ops::json::<%s, %d, %d>(%s)" % (ty, len(lens), k + 1, arr), unwind=8, cap=1800, mem=20,
-                        stubs=["S1", "S2", "S4", "S5", "S7"], tier="quick" if q else "thorough",
+                        "crate::export_ops::json::<%s, %d, %d>(%s)" % (ty, len(lens), k + 1, arr), unwind=7, cap=1800, mem=12 if len(lens) == 1 else 28, cbmc_args=FMT_WRITE_UNWINDSET, ofmt="old",
+                        stubs=["S1", "S2", "S4b", "S5", "S7", "S8"], tier="quick" if (q and len(lens) == 1) else "thorough",
                         funcs=["DebruijnGraph::to_json_rest", "Node::to_json", "Node::edges_to_json", "Node::r_edges", "DebruijnGraph::find_edges",
                                "DebruijnGraph::find_link", "<DnaStringSlice as Debug>::fmt", "<serde_json::Value as Display>::fmt", "core::fmt::write"],
                         bounds="%d-node graph with node lengths %s over %s: all bases, all 256 extension sets per node, stranded/unstranded; payload rendered as null; fixed-array sink; graph validity assumed: node-end k-mers pairwise distinct per side" % (len(lens), lens, tag)))
-    hs.append(H("c20_probe_fmt_line", [], "crate::export_ops::probe_fmt_line()", unwind=8, cap=600, tier="thorough", stubs=["S1", "S2", "S4", "S5", "S7"]))
     return hs
 
 
